@@ -322,9 +322,12 @@ func Network(p Params, k *Keyring) *consensus.Network {
 
 // FileData returns the deterministic contents of a contract file of the given size.
 func FileData(size uint64) []byte {
+	// no two 64-byte segments may coincide (a periodic file would make "the proof of another leaf" a valid proof)
 	d := make([]byte, size)
+	x := uint32(size)*2654435761 + 12345
 	for i := range d {
-		d[i] = byte(i*7 + int(size)*13 + 1)
+		x = x*1103515245 + 12345
+		d[i] = byte(x >> 16)
 	}
 	return d
 }
